@@ -42,7 +42,11 @@
  * Return:
  *     number of characters in the returned string, or SNOOPY_DATASOURCE_FAILURE
  */
-int snoopy_datasource_noop (__attribute__((unused)) char * const resultBuf, __attribute__((unused)) size_t resultBufSize, __attribute__((unused)) char const * const arg)
+int snoopy_datasource_noop (char * const resultBuf, size_t resultBufSize, __attribute__((unused)) char const * const arg)
 {
+    /* The result is an empty string - which, like every other data source's result, must be terminated */
+    if (resultBufSize > 0) {
+        resultBuf[0] = '\0';
+    }
     return 0;
 }
